@@ -477,6 +477,21 @@ impl Span {
     }
 }
 
+// A name written with a colon but nothing in front of it (`<:a/>`) is not a
+// qualified name: there is no empty prefix to look up. The tokenizer reports
+// such a prefix as an empty slice of the source (which cannot start at 0, as
+// a name never stands at the very start), an absent prefix as an empty string
+// that is not a slice (start 0).
+fn check_qname(prefix: &StrSpan, local: &StrSpan) -> Result<(), ParseError> {
+    if prefix.is_empty() && prefix.start() != 0 {
+        return Err(ParseError::UnknownPrefix(
+            String::new(),
+            Span::new(prefix.start(), local.end()),
+        ));
+    }
+    Ok(())
+}
+
 impl From<xmlparser::StrSpan<'_>> for Span {
     fn from(span: xmlparser::StrSpan) -> Self {
         Span {
@@ -751,6 +766,7 @@ impl Xot {
                         value,
                         span: _,
                     } => {
+                        check_qname(&prefix, &local)?;
                         if prefix.as_str() == "xmlns" {
                             let name_span = Span::from_prefix_name(prefix, local);
                             builder.prefix(local.as_str(), value, name_span, self)?;
@@ -778,6 +794,7 @@ impl Xot {
                         local,
                         span: _,
                     } => {
+                        check_qname(&prefix, &local)?;
                         builder.element(prefix, local);
                     }
 
@@ -795,6 +812,7 @@ impl Xot {
                                 span_info.add_attribute_spans(node_id, attribute_spans);
                             }
                             Close(prefix, local) => {
+                                check_qname(&prefix, &local)?;
                                 let node_id = builder.close_element(prefix, local, self)?;
                                 span_info
                                     .add(SpanInfoKey::ElementEnd(node_id.into()), end_span.into());
